@@ -9,7 +9,7 @@ RULE = ("one child process per case; one breaker (ErrorCount / ErrorRatio / Slow
         "schedule log. Scenarios: (a) 2-3 completions that each would open the breaker; (b) breaker tripped in the setup, clock past the retry time, 2-3 threads requesting at once (probe race), "
         "then completing with/without error; (c) breaker tripped, clock short of the retry time, concurrent requests (must all be rejected) with one thread stepping the clock past it; "
         "(d) probe completion racing with new requests and with completions of entries admitted before the trip; (e) random programs of build / exit / exit-with-error / clock steps. "
-        "Schedules as for C14 (sequential, few preemptions, round robin, random), thorough adds every single preemption of (a) and (b). Observed: per-thread results in schedule order, the "
+        "Schedules as for C14 (sequential, few preemptions, round robin, random), every 4th (thorough: every) single preemption of (a) and (b), and a grid (thorough: all) of two-preemption schedules of (a) and (b) with two threads. Observed: per-thread results in schedule order, the "
         "listener log, the final state. Non-trivial: the breaker opened or a probe ran; distinct = distinct op text.")
 NONTRIVIAL_TAGS = ["breaker-opened", "probe"]
 ASSUMPTIONS = ["scheduling points are the lock operations and the wrapped atomics (state mutex, listener lock, retry timestamp, counters)"]
@@ -87,4 +87,13 @@ def gen(rng, tier):
         for pos in range(0, 200, step):
             c = [0] * (pos + 1); c[pos] = 1
             cases.append(base[:-2] + [fmt(c), "brstate res=a"])
+    # two preemptions: t0 runs to a point, t1 runs k points (e.g. wins the Open->Half-Open race and still holds its probe),
+    # then t0 continues (seed C16-d: the effect needs the loser to finish while the winner's probe is in flight)
+    s1, s2 = (2, 3) if tier == "quick" else (1, 1)
+    for kind in "ab":
+        base = case(rng, kind, choices=[], n=2)
+        for pos in range(0, 48, s1):
+            for k in range(1, 48, s2):
+                c = [0] * (pos + k + 1); c[pos] = 1; c[pos + k] = 1
+                cases.append(base[:-2] + [fmt(c), "brstate res=a"])
     return cases
